@@ -412,17 +412,19 @@ def scalar_certificate(case, w_full, strategy="subdiff", impl_pen=None, eta_buf=
     return dict(vec=v, feat=float(v.max()) if p else 0., icpt=icpt, gscale=gs, icpt_scale=icpt_scale, obj=obj, grad=g)
 
 
-def objective(case, w_full):
-    """true objective (intercept unpenalised; +inf if infeasible)"""
+def objective(case, w_full, eta_buf=None):
+    """true objective (intercept unpenalised; +inf if infeasible); eta_buf = the solver's own model-fit buffer
+    to take the predictor from (removes round-off between X w and the incrementally updated buffer)"""
     X = np.array(case["X"], float)
     y = np.array(case["y"], float)
     d = case["datafit"]
     pen = ref_penalty(case)
     w, b, fi = split(case, w_full)
     if d is not None and d["name"] == "QuadraticSVC":
-        th = (y[:, None] * X).T @ w
+        th = (y[:, None] * X).T @ w if eta_buf is None else np.asarray(eta_buf, float)
         return .5 * float(th @ th) - float(w.sum()) + pen.value(w)
-    return ref_loss(case).value(y, X @ w + b) + pen.value(w)
+    eta = X @ w + b if eta_buf is None else np.asarray(eta_buf, float)
+    return ref_loss(case).value(y, eta) + pen.value(w)
 
 
 # =============================================================================================
@@ -650,10 +652,11 @@ def multitask_certificate(case, W_full, eta_buf=None):
                 obj=float(((E - Y) ** 2).sum() / (2 * n)) + pen.value(W), grad=G)
 
 
-def multitask_objective(case, W_full):
+def multitask_objective(case, W_full, eta_buf=None):
     X = np.array(case["X"], float)
     Y = np.array(case["y"], float)
     W_full = np.asarray(W_full, float)
     fi = bool(case["solver"]["fit_intercept"])
     W, B = (W_full[:-1], W_full[-1]) if fi else (W_full, 0.)
-    return float(((Y - X @ W - B) ** 2).sum() / (2 * X.shape[0])) + ref_penalty(case).value(W)
+    E = X @ W + B if eta_buf is None else np.asarray(eta_buf, float)
+    return float(((Y - E) ** 2).sum() / (2 * X.shape[0])) + ref_penalty(case).value(W)
